@@ -160,6 +160,24 @@ def run_driver(pid, case_file, shards, exe_name=None):
     return lines, verdicts
 
 
+def hang_verdict(pid, hang):
+    """A case on which the library did not return within the per-case limit. For inputs the property quantifies over
+    this is an outcome it never allows (FAIL). A driver may know that the input lies OUTSIDE the property's quantifier
+    (e.g. a variable that is not in the variable set, where the property only requires nothing): it then answers the
+    line `<case> => hang` with a plain `DIS` (model disagreement) and the hang is reported as a broken correspondence,
+    not as a violation with a failing input. Anything else the driver says (FAIL, bad, dies) keeps the FAIL."""
+    line = hang + ' => hang'
+    exe = os.path.join(LEAN, '.lake', 'build', 'bin', 'drv_' + pid.lower())
+    try:
+        p = subprocess.run([exe], input=line + '\n', stdout=subprocess.PIPE, stderr=subprocess.PIPE, text=True, timeout=600)
+        v = (p.stdout.strip().split('\n') or [''])[0]
+    except Exception:
+        v = ''
+    if v.split(' ', 1)[0] == 'DIS':
+        return (line, v, 'hang on an input outside the property\'s quantifier (driver: %s)' % v[:200]), False
+    return (line, 'FAIL 1 hang clause=outcome:hang', 'clause=outcome:hang (the call did not return within the per-case limit)'), True
+
+
 def known_findings(pid):
     p = os.path.join(VERIF, 'known_findings.json')
     if not os.path.exists(p):
@@ -297,9 +315,15 @@ def check(pid, tier, seed):
         lines, verdicts = run_driver(pid, case_file, NCPU)
         stats, tags, fails, dis, bad, n_nontrivial = classify(lines, verdicts)
         if hang:
-            # the library did not return on this input: an outcome the property never allows
-            fails.append((hang + ' => hang', 'FAIL 1 hang clause=outcome:hang', 'clause=outcome:hang (the call did not return within the per-case limit)'))
-            stats['FAIL'] += 1
+            # the library did not return on this input: an outcome the property never allows — unless the driver
+            # knows the input to lie outside the property's quantifier (see hang_verdict)
+            hv, is_fail = hang_verdict(pid, hang)
+            if is_fail:
+                fails.append(hv)
+                stats['FAIL'] += 1
+            else:
+                dis.append(hv)
+                stats['DIS'] += 1
         if bad:
             broken_ties.append('driver could not process %d cases, e.g. %s -> %s' % (len(bad), bad[0][0][:200], bad[0][1][:200]))
 
@@ -378,7 +402,9 @@ def check(pid, tier, seed):
             sl, sv = run_driver(pid, sfile, NCPU)
             _, _, sfails, _, _, _ = classify(sl, sv)
             if shang:
-                sfails.append((shang + ' => hang', 'FAIL 1 hang clause=outcome:hang', 'clause=outcome:hang'))
+                hv, is_fail = hang_verdict(pid, shang)
+                if is_fail:
+                    sfails.append(hv)
             sfails = [x for x in sfails if case_signature(x[0]) not in known_sigs]
             if sfails:
                 sfails.sort(key=lambda x: len(x[0]))
